@@ -27,6 +27,20 @@ Proof.
 Qed.
 Theorem C10_C08_istop_values : istop_values_gen = ("SAT" :: "UNSAT" :: "UNKNOWN" :: nil)%string.
 Proof. reflexivity. Qed.
+(* programs are read from all texts given, each text starting in the initial part (Model/Inputs.v over the REGENERATED visit_Program; every text begins
+   with the `#program base.` of clingo's parser): whatever state the texts before it left behind, the statements of a text up to its first directive are
+   in the initial part without the final flag, `base` names the initial part, `final` the always part with the flag *)
+Require Import String FromParts FutTransform Inputs InputsProofs.
+Theorem C10_every_text_starts_in_the_initial_part : forall (R : Type) (st : pstate) (i : list (stmt R)),
+  resolve R st (text R i) = resolve R initial_state i /\ state_after R st (text R i) = state_after R initial_state i.
+Proof. exact text_starts_in_the_initial_part. Qed.
+Theorem C10_directive_table : forall (f : bool) (p : string),
+  visit_program_gen "initial" f p = ("initial", false, "initial")%string /\ visit_program_gen "always" f p = ("always", false, "always")%string /\
+  visit_program_gen "dynamic" f p = ("dynamic", false, "dynamic")%string /\ visit_program_gen "final" f p = ("always", true, "always")%string /\
+  visit_program_gen "base" f p = ("initial", false, "initial")%string.
+Proof. intros f p. destruct (directive_table f p) as [H1 [H2 [H3 H4]]]. split; [exact H1|split; [exact H2|split; [exact H3|split; [exact H4|exact (base_is_initial f p)]]]]. Qed.
+Print Assumptions C10_every_text_starts_in_the_initial_part.
+Print Assumptions C10_directive_table.
 Print Assumptions C10_total_and_states.
 Print Assumptions C10_state_contents.
 Print Assumptions C10_C08_option_values.
